@@ -1350,3 +1350,97 @@ def request_expectations(op, kw, p, version):
     else:
         raise HarnessError('no request expectation for ' + n)
     return E
+
+
+# ---------------------------------------------------------------------- optional header / batch item fields (own TTLV writer)
+def ttlv(tag, ty, value):
+    """One TTLV item written by the specification (9.1), independent of PyKMIP: value = bytes (already typed)."""
+    return int(tag).to_bytes(3, 'big') + bytes([ty]) + len(value).to_bytes(4, 'big') + value + b'\x00' * ((-len(value)) % 8)
+
+
+def t_struct(tag, *items):
+    return ttlv(tag.value, 1, b''.join(items))
+
+
+def t_text(tag, s):
+    return ttlv(tag.value, 7, s.encode('utf-8'))
+
+
+def t_bytes(tag, b):
+    return ttlv(tag.value, 8, bytes(b))
+
+
+def t_enum(tag, v):
+    return ttlv(tag.value, 5, int(v).to_bytes(4, 'big'))
+
+
+def t_bool(tag, b):
+    return ttlv(tag.value, 6, (1 if b else 0).to_bytes(8, 'big'))
+
+
+def t_date(tag, v):
+    return ttlv(tag.value, 9, int(v).to_bytes(8, 'big', signed=True))
+
+
+def _items(bs, off, end):
+    """[(offset, tag, total length incl. padding)] of the items between off and end."""
+    out = []
+    while off + 8 <= end:
+        ln = int.from_bytes(bs[off + 4:off + 8], 'big')
+        tot = 8 + ln + (-ln) % 8
+        out.append((off, int.from_bytes(bs[off:off + 3], 'big'), tot))
+        off += tot
+    return out
+
+
+def _set_len(bs, off, delta):
+    ln = int.from_bytes(bs[off + 4:off + 8], 'big') + delta
+    return bs[:off + 4] + ln.to_bytes(4, 'big') + bs[off + 8:]
+
+
+T = enums.Tags
+HEADER_ORDER = [T.PROTOCOL_VERSION, T.TIME_STAMP, T.NONCE, T.SERVER_HASHED_PASSWORD, T.ATTESTATION_TYPE,
+                T.CLIENT_CORRELATION_VALUE, T.SERVER_CORRELATION_VALUE, T.BATCH_COUNT]      # KMIP 1.2 - 2.0 tables
+
+
+def with_header_fields(frame, fields, time_stamp=None):
+    """The same response with optional Response Header fields added: fields = {Tags member: [encoded items]}, placed in
+    the order of the specification's Response Header table; all enclosing lengths are adjusted."""
+    hdr_off = 8
+    hl = int.from_bytes(frame[hdr_off + 4:hdr_off + 8], 'big')
+    present = _items(frame, hdr_off + 8, hdr_off + 8 + hl)
+    pieces = {}
+    for off, tag, tot in present:
+        pieces.setdefault(tag, []).append(frame[off:off + tot])
+    if time_stamp is not None:
+        pieces[T.TIME_STAMP.value] = [t_date(T.TIME_STAMP, time_stamp)]
+    for tag, enc in fields.items():
+        pieces.setdefault(tag.value, []).extend(enc)
+    body = b''.join(b''.join(pieces.get(t.value, [])) for t in HEADER_ORDER)
+    new_hdr = ttlv(T.RESPONSE_HEADER.value, 1, body)
+    rest = frame[hdr_off + 8 + hl:]
+    return ttlv(T.RESPONSE_MESSAGE.value, 1, new_hdr + rest)
+
+
+def with_batch_item_fields(frame, before_status=b'', after_payload=b'', after_message=b''):
+    """The same one-item response with optional Batch Item fields added (Unique Batch Item ID before the status,
+    Asynchronous Correlation Value after the message/reason/status, Message Extension last)."""
+    hdr_off = 8
+    hl = int.from_bytes(frame[hdr_off + 4:hdr_off + 8], 'big')
+    bi_off = hdr_off + 8 + hl
+    bl = int.from_bytes(frame[bi_off + 4:bi_off + 8], 'big')
+    items = _items(frame, bi_off + 8, bi_off + 8 + bl)
+    out = b''
+    placed_async = False
+    for off, tag, tot in items:
+        if tag == T.RESULT_STATUS.value:
+            out += before_status
+        if tag == T.RESPONSE_PAYLOAD.value and not placed_async:
+            out += after_message
+            placed_async = True
+        out += frame[off:off + tot]
+    if not placed_async:
+        out += after_message
+    out += after_payload
+    new_bi = ttlv(T.BATCH_ITEM.value, 1, out)
+    return ttlv(T.RESPONSE_MESSAGE.value, 1, frame[8:bi_off] + new_bi + frame[bi_off + 8 + bl:])
